@@ -37,6 +37,9 @@ FEATURE_DEFAULTS = {
     "version_minor": 4,
     "trailing": 0,
     "attr_zero": False,         # some members carry a DEFINED attribute word equal to 0
+    "no_substreams": False,     # one stream per folder, CRCs at folder level, SubStreamsInfo record left out altogether
+    "kind_attr_conflict": False,  # attribute words that say the opposite of the stream flags (dir without 0x10, empty file with 0x10)
+    "startpos": False,          # kStartPos (0x18) file property, partially defined
 }
 
 REF_CHAINS = [
@@ -87,6 +90,11 @@ def gen_case(rng: random.Random, max_len=20000, force=None):
     f["empty_folder"] = maybe(0.08)
     f["version_minor"] = rng.choice([4, 4, 3, 2])
     f["attr_zero"] = maybe(0.2)
+    f["no_substreams"] = maybe(0.12)
+    f["kind_attr_conflict"] = maybe(0.12)
+    f["startpos"] = maybe(0.08)
+    if rng.random() < 0.1:
+        f["pack_crc"] = "partial"
     if force:
         f.update(force)
     nstream = rng.choice([1, 2, 3, 4, 6])
@@ -220,6 +228,10 @@ def realise(case):
                 attr = 0x10 | ((0x8000 | ((0o040000 | r.choice([0o755, 0o700, 0o775])) << 16)) if f["unix_attr"] else 0)
                 if not f["dir_attr"]:
                     attr = None
+                elif f.get("kind_attr_conflict"):
+                    attr = (attr & ~0x10) | 0x20  # the stream flags make it a directory, not this word
+            elif m["kind"] == "emptyfile" and f.get("kind_attr_conflict"):
+                attr = 0x10 | 0x20  # flagged as an empty file: a file, whatever this word says
             elif m["kind"] == "symlink":
                 attr = 0x20 | 0x400 | 0x8000 | ((0o120000 | 0o777) << 16)
             else:
@@ -245,6 +257,11 @@ def realise(case):
         folders.append({"n": cnt, "chain": chains[i % len(chains)], "crc": f["crc"]})
     if f["empty_folder"]:
         folders.insert(r.randint(0, len(folders)), {"n": 0, "chain": [{"m": "COPY"}], "crc": "none"})
+    no_sub = bool(f.get("no_substreams")) and folders and all(fo["n"] == 1 for fo in folders)
+    if no_sub:
+        for fo in folders:
+            if fo["crc"] != "none":
+                fo["crc"] = "folder"
     layout = {
         "folders": folders,
         "omit_numunpack": not f["numunpack_explicit"],
@@ -257,5 +274,7 @@ def realise(case):
         "explicit_defvec": f["explicit_defvec"],
         "version": (0, f["version_minor"]),
         "trailing": f["trailing"],
+        "substreams": not no_sub,
+        "startpos": bool(f.get("startpos")),
     }
     return members, layout
